@@ -70,3 +70,7 @@ Definition ham2418_dec (b0 b1 b2 : N) : option N :=
   | Some d => Some (num_of d)
   | None => None
   end.
+
+(* the same on the 24-bit word (bit i = position i+1) *)
+Definition ham2418_word (d : N) : N := num_of (ham2418_enc_bits (bits_of 18 d)).
+Definition ham2418_dec_word (w : N) : option N := ham2418_dec (N.land w 255) (N.land (N.shiftr w 8) 255) (N.shiftr w 16).
